@@ -77,6 +77,8 @@ type vMemStream struct {
 	gateDelay int
 	gateDone  bool
 	stall     bool // at the end of buf, Read blocks forever instead of reporting EOF
+	onWrite   func(p []byte) // observer of what the code under test writes (before it is stored)
+	slowWrite int            // native pacing only: every Write takes this many milliseconds (a slower stream)
 }
 
 func (m *vMemStream) Read(p []byte) (int, error) {
@@ -104,6 +106,12 @@ func (m *vMemStream) Read(p []byte) (int, error) {
 }
 
 func (m *vMemStream) Write(p []byte) (int, error) {
+	if m.slowWrite > 0 && !vSymbolic() {
+		time.Sleep(time.Duration(m.slowWrite) * time.Millisecond)
+	}
+	if m.onWrite != nil {
+		m.onWrite(p)
+	}
 	if m.duplex {
 		m.out = append(m.out, p...)
 		return len(p), nil
